@@ -390,19 +390,22 @@ def run(ctx):
             loc = fr.f_locals
             Wn = cone.npW(W)
             bad, meas = cone.check_W_invariants(Wn, tol=1e-9)
-            if seen["n"] > 40:
-                # r and rti (v, beta) are updated separately by products: in a solve that stalls for 50-100 iterations the
-                # rounding of those products accumulates (8.5e-9 relative to ||r|| ||rti|| observed at update 55 of a
-                # stalled ldl2 run, thorough seed 31).  The invariants are a statement about one compute/update step and
-                # about solves of ordinary length (< 30 iterations); later scalings are observed, not judged.
-                ctx.count("c.late-scalings-not-judged")
-                for k_, v_ in meas.items():
-                    ctx.maxobs("W-invariant-in-solve-after-40-updates." + k_, v_)
-                return fac(W, args["P"]) if entry == "coneqp" else fac(W)
             for k_, v_ in meas.items():
-                ctx.maxobs("W-invariant-in-solve." + k_, v_)
+                ctx.maxobs("W-invariant-in-solve." + ("after-20-updates." if seen["n"] > 20 else "") + k_, v_)
             c.check()
-            for b in bad:
+            if seen["n"] > 20:
+                # update_scaling propagates the deviation from v'Jv = 1 (r'rti = I) of the scaling it is given and amplifies
+                # it by a factor ~1.65 per update even for well-conditioned scalings (traced on thorough seed 41 worker 5 case
+                # 2433: 3e-16 at update 1, 1.3e-9 at update 30, 7.8e-8 at update 39 with v'v <= 1.8).  Solves of ordinary
+                # length never get near 1e-9; a deviation that first appears after more than 20 updates is reported under
+                # its own mechanism key (recorded finding), any deviation in the first 20 updates under the plain key.
+                ctx.count("c.scalings-after-20-updates")
+                for b in bad:
+                    c.fail("in-solve-drift-after-20-updates:%s:%s" % (entry, b[0]), "W handed to kktsolver violates invariant %s (%r) at call %d" % (b[0], b[1], seen["n"]))
+                if bad or seen["n"] > 40:
+                    return fac(W, args["P"]) if entry == "coneqp" else fac(W)
+            else:
+              for b in bad:
                 c.fail("in-solve:%s:%s" % (entry, b[0]), "W handed to kktsolver violates invariant %s (%r) at call %d" % (b[0], b[1], seen["n"]))
             if "iters" in loc and "lmbda" in loc and "s" in loc and "z" in loc and not bad:
                 s_, z_, lm_ = vec(loc["s"]), vec(loc["z"]), np.array(list(loc["lmbda"]))
@@ -469,13 +472,16 @@ def run(ctx):
             Wn = cone.npW(W)
             f_, Df_, H_ = F(x, z)
             solve = fac(W, H_, Df_ if entry == "cpl" else Df_[1:, :])
-            if seen["n"] > 40:
-                ctx.count("c.late-scalings-not-judged")
-                return solve
             bad, meas = cone.check_W_invariants(Wn, tol=1e-9)
             for k_, v_ in meas.items():
-                ctx.maxobs("W-invariant-in-nl-solve." + k_, v_)
+                ctx.maxobs("W-invariant-in-nl-solve." + ("after-20-updates." if seen["n"] > 20 else "") + k_, v_)
             c.check()
+            if seen["n"] > 20:
+                ctx.count("c.scalings-after-20-updates")
+                for b in bad:
+                    c.fail("in-solve-drift-after-20-updates:%s:%s" % (entry, b[0]), "W handed to kktsolver violates invariant %s (%r) at call %d" % (b[0], b[1], seen["n"]))
+                if bad or seen["n"] > 40:
+                    return solve
             c.require(len(Wn.get("dnl", ())) == mnl_user and len(Wn.get("dnli", ())) == mnl_user, "in-solve:%s:W-dnl-length" % entry,
                       "W['dnl'] handed to the user kktsolver has length %d, mnl is %d" % (len(Wn.get("dnl", ())), mnl_user))
             for b in bad:
